@@ -315,10 +315,20 @@ def mMirror (q : Bool) (a n : W) : Except Err W :=
   if n.toInt < 1 ∨ n.toInt > 32 then .error .overRange
   else .ok (mirrorLoop q a n.toNat n.toNat ((a.sshiftRight n.toNat) <<< n.toNat))
 
-def mShl (a n : W) : Except Err W := if n.toNat < 64 then .ok (a <<< n.toNat) else .error .ub
+/-- `ShiftOp` (operator.c, repairs ff7b847 and 8d61d7d; before them the C shift was applied to any count, which is
+undefined outside 0..63): a negative count shifts into the opposite direction, a count of 64 or more shifts all bits
+out, both directions are logical shifts -/
+def shiftOp (a n : W) (left : Bool) : W :=
+  let c := n.toInt
+  let left' := if c < 0 then !left else left
+  let m : Nat := if c < 0 then (if c ≤ -64 then 64 else (-c).toNat) else c.toNat
+  if m ≥ 64 then 0 else if left' then a <<< m else a >>> m
 
+def mShl (a n : W) : Except Err W := .ok (shiftOp a n true)
+
+/-- `q` = `>>` on the signed value (the code before the repair 8d61d7d; counts 0..63 only) -/
 def mShr (q : Bool) (a n : W) : Except Err W :=
-  if n.toNat < 64 then .ok (if q then a.sshiftRight n.toNat else a >>> n.toNat) else .error .ub
+  if q ∧ n.toNat < 64 then .ok (a.sshiftRight n.toNat) else .ok (shiftOp a n false)
 
 def mDiv (a b : W) : Except Err W :=
   if b = 0 then .error .divZero
